@@ -260,6 +260,30 @@ def s_split(draw, max_steps=40, long=0):
         m = max(1, round(target * 10 ** e))
         case['split'].update(dt=[float(Fr(m, 10 ** e)), 'sec'], literal=[m, e])
         dt = case['split']['dt']
+        # aim at durations whose float quotient T/dt lands one ulp above the whole number of steps (about one in ten
+        # does): that is where a step count depends on how the guard against rounding is written
+        which = draw(st.sampled_from(['n1', 'total']))
+        total = n1 + n2
+        if which == 'n1' and n1 < 8192:
+            n1 = draw(st.integers(8192, max(8192, total - 2)))
+        found = False
+        for m_ in range(m, m + 20):
+            dtf = float(Fr(m_, 10 ** e))
+            base = n1 if which == 'n1' else total
+            for cand in range(base, base + 200):
+                if float(Fr(m_ * cand, 10 ** e)) / dtf > cand:
+                    found = True
+                    break
+            if found:
+                m = m_
+                if which == 'n1':
+                    n1 = cand
+                else:
+                    total = cand
+                break
+        n2 = max(2, total - n1)
+        case['split'].update(dt=[float(Fr(m, 10 ** e)), 'sec'], literal=[m, e], n1=n1, n2=n2)
+        dt = case['split']['dt']
     case['history'] = []
     horizon = U.si('TimeInterval', *dt) * (n1 + n2)
     rules = G.s_constant_rules(draw, horizon, max_rules=3)
